@@ -45,7 +45,7 @@ func init() {
 			},
 			NonTrivial: func(rs []*orch.Result) (int64, map[string]interface{}) {
 				k := orch.UnionDistinct(rs, "outcome_classes")
-				ex := sumCounters(rs, "batch_outcomes_checked", "conversion_amounts_checked", "history_folds", "history_rows_folded", "fold_addresses_compared", "api_keys_paged", "api_multi_page_keys", "api_actions_returned", "api_requests", "peg_requests_allotted_zero_with_refund")
+				ex := sumCounters(rs, "batch_outcomes_checked", "conversion_amounts_checked", "history_folds", "history_rows_folded", "fold_addresses_compared", "api_keys_paged", "api_multi_page_keys", "api_actions_returned", "api_action_contents_compared", "api_requests", "peg_requests_allotted_zero_with_refund")
 				ex["outcome_classes"] = len(k)
 				return int64(len(k)) + orch.SumCounter(rs, "api_multi_page_keys") + orch.SumCounter(rs, "history_folds"), ex
 			}, Min: 20})
@@ -306,6 +306,27 @@ func apiPaging(n *harness.Node, e forge.Eras, r *orch.Result, seed int64) error 
 		}
 		involved[a][k] = true
 	}
+	// what every action says, straight from the tables: each action the API returns, on whatever page of
+	// whatever listing, must say exactly this
+	type actionRow struct {
+		height, executed, fromAmt, toAmt int64
+		fromAsset, toAsset, outputs     string
+	}
+	actionOf := map[string]actionRow{}
+	arows, err := db.Query(`SELECT t.entry_hash, t.tx_index, b.height, b.executed, t.from_asset, t.from_amount, t.to_asset, t.to_amount, t.outputs
+		FROM pn_history_transaction t JOIN pn_history_txbatch b ON b.entry_hash = t.entry_hash`)
+	if err != nil {
+		return err
+	}
+	for arows.Next() {
+		var h, outs []byte
+		var idx int
+		var a actionRow
+		arows.Scan(&h, &idx, &a.height, &a.executed, &a.fromAsset, &a.fromAmt, &a.toAsset, &a.toAmt, &outs)
+		a.outputs = canonOutputs(outs)
+		actionOf[fmt.Sprintf("%d-%x", idx, h)] = a
+	}
+	arows.Close()
 	trows, err := db.Query("SELECT entry_hash, tx_index, from_address, outputs FROM pn_history_transaction")
 	if err != nil {
 		return err
@@ -391,6 +412,7 @@ func apiPaging(n *harness.Node, e forge.Eras, r *orch.Result, seed int64) error 
 			cases = append(cases, keyCase{"txid", map[string]interface{}{"txid": fmt.Sprintf("%d-%x", ti, hh)}, map[string]bool{fmt.Sprintf("%d-%x", ti, hh): true}})
 		}
 	}
+	contentProblems := 0
 	for _, kc := range cases {
 		for _, desc := range []bool{false, true} {
 			got := map[string]int{}
@@ -418,8 +440,15 @@ func apiPaging(n *harness.Node, e forge.Eras, r *orch.Result, seed int64) error 
 				var env struct {
 					Result *struct {
 						Actions []struct {
-							Hash    string `json:"hash"`
-							TxIndex int    `json:"txindex"`
+							Hash       string          `json:"hash"`
+							TxIndex    int             `json:"txindex"`
+							Height     int64           `json:"height"`
+							Executed   int64           `json:"executed"`
+							FromAsset  string          `json:"fromasset"`
+							FromAmount int64           `json:"fromamount"`
+							ToAsset    string          `json:"toasset"`
+							ToAmount   int64           `json:"toamount"`
+							Outputs    json.RawMessage `json:"outputs"`
 						} `json:"actions"`
 						Count      int `json:"count"`
 						NextOffset int `json:"nextoffset"`
@@ -435,8 +464,19 @@ func apiPaging(n *harness.Node, e forge.Eras, r *orch.Result, seed int64) error 
 					count = env.Result.Count
 				}
 				for _, a := range env.Result.Actions {
-					got[fmt.Sprintf("%d-%s", a.TxIndex, a.Hash)]++
+					k := fmt.Sprintf("%d-%s", a.TxIndex, a.Hash)
+					got[k]++
 					total++
+					if want, ok := actionOf[k]; ok {
+						r.Count("api_action_contents_compared", 1)
+						have := actionRow{a.Height, a.Executed, a.FromAmount, a.ToAmount, a.FromAsset, a.ToAsset, canonOutputs(a.Outputs)}
+						if have != want && contentProblems < 4 {
+							contentProblems++
+							r.Violate("C17", fmt.Sprintf("api-action-content kind=%s", kc.kind),
+								fmt.Sprintf("get-transactions %v (desc=%v, offset %d) returns action %s as %+v, the tables record %+v", kc.params, desc, offset, clipS(k, 30), have, want),
+								map[string]interface{}{"seed": seed, "kind": kc.kind, "params": kc.params, "desc": desc, "offset": offset, "action": k})
+						}
+					}
 				}
 				if env.Result.NextOffset == 0 || pages > 200 {
 					break
@@ -482,6 +522,25 @@ func apiPaging(n *harness.Node, e forge.Eras, r *orch.Result, seed int64) error 
 		}
 	}
 	return nil
+}
+
+// canonOutputs renders an outputs list (as stored, or as the API returns it) as "address:amount,…" in the given order.
+func canonOutputs(raw []byte) string {
+	if len(raw) == 0 || string(raw) == "null" {
+		return ""
+	}
+	var outs []struct {
+		Address string `json:"address"`
+		Amount  int64  `json:"amount"`
+	}
+	if err := json.Unmarshal(raw, &outs); err != nil {
+		return "unparsable:" + string(raw)
+	}
+	var parts []string
+	for _, o := range outs {
+		parts = append(parts, fmt.Sprintf("%s:%d", o.Address, o.Amount))
+	}
+	return strings.Join(parts, ",")
 }
 
 func abs(x int) int {
